@@ -24,7 +24,7 @@ ASSUMPTIONS = [
 ]
 MONITORS = ("lost-bytes accounting: {path: bytes} of the workspace before vs after against the set of intact cache objects; audit-hook trail of "
             "removals as witness; shadow model of the link table for clean-up")
-REQUIRED_COUNTERS = ["crlf_variants_of_tracked_text", "legacy_scans_through_the_same_state", "file_where_a_tree_goes_cases", "output_removed_cases", "own_data_under_two_linked_names", "workspaces_with_stray_ignore_file", "second_attempts_after_refusal", "single_file_targets", "inode_only_replacements", "workspaces_with_dangling_symlink", "cleanups_after_checkout", "large_file_directories", "dir_links_with_duplicate_basenames", "damaged_cache_objects", "symlinked_link_records", "checkouts", "uncached_files_in_workspace", "prompt_errors", "declining_prompt_calls", "normal_returns", "kind_swap_cases",
+REQUIRED_COUNTERS = ["crlf_variants_of_tracked_text", "legacy_scans_through_the_same_state", "file_where_a_tree_goes_cases", "output_removed_cases", "symlinked_subdirectory_cases", "own_data_under_two_linked_names", "workspaces_with_stray_ignore_file", "second_attempts_after_refusal", "single_file_targets", "inode_only_replacements", "workspaces_with_dangling_symlink", "cleanups_after_checkout", "large_file_directories", "dir_links_with_duplicate_basenames", "damaged_cache_objects", "symlinked_link_records", "checkouts", "uncached_files_in_workspace", "prompt_errors", "declining_prompt_calls", "normal_returns", "kind_swap_cases",
                      "link_histories", "unused_link_queries", "remove_links_calls", "relink_cases", "store/local", "store/base",
                      "link/copy", "link/hardlink", "link/symlink"]
 
@@ -474,6 +474,53 @@ def run_shard(ctx):
             env.reset_staging()
             ctx.drop(d)
 
+        def symlinked_subdir(case=case, rng=rng):
+            """a sub-directory of the workspace is a symbolic link to a directory of the user's elsewhere, holding uncached files under names the target also has"""
+            d = ctx.fresh("y")
+            cls = rng.choice(["local", "local", "base"])
+            link = rng.choice(["copy", "hardlink", "symlink"])
+            state = env.mk_state(d, os.path.join(d, "tmp")) if rng.random() < 0.5 else None
+            odb = env.odb_of_class(cls, os.path.join(d, "cache"), state=state, type=[link])
+            T = {("top",): gen.small_content(rng) + b"t", ("sub", "x"): gen.small_content(rng) + b"x", ("sub", "deep", "y"): gen.small_content(rng) + b"y"}
+            tobj = colab.populate(odb, d, T, "tsrc")
+            ws = os.path.join(d, "ws", "out")
+            os.makedirs(ws)
+            with open(os.path.join(ws, "top"), "wb") as f:
+                f.write(T[("top",)])
+            outside = os.path.join(d, "users-own-dir")
+            own = {("x",): gen.small_content(rng) + b"own-x", ("deep", "y"): gen.small_content(rng) + b"own-y", ("other",): b"own-other"}
+            gen.write_tree(outside, own)
+            os.symlink(outside, os.path.join(ws, "sub"))
+            res.evaluated()
+            res.count("checkouts")
+            res.count("symlinked_subdirectory_cases")
+            res.count(f"store/{cls}")
+            res.count(f"link/{link}")
+            res.count("uncached_files_in_workspace", len(own))
+            res.nontrivial("symlinked-subdir", sorted(T.items()), sorted(own.items()), cls, link)
+            outcome = "returned"
+            try:
+                checkout(ws, fs, load(odb, tobj.hash_info), odb, force=False, state=state, relink=rng.random() < 0.3,
+                         prompt=(lambda m: res.count("declining_prompt_calls") or False) if rng.random() < 0.5 else None)
+                res.count("normal_returns")
+            except PromptError:
+                outcome = "PromptError"
+                res.count("prompt_errors")
+            except (CheckoutError, LinkError, OSError) as e:
+                outcome = type(e).__name__
+            cfg = {"symlinked_subdirectory": True, "store": cls, "link": link, "outcome": outcome}
+            res.sample(cfg)
+            now = walk_files(outside) if os.path.isdir(outside) else {}
+            changed = sorted(k for k, v in own.items() if now.get(k) != v)
+            if changed:
+                res.violation("uncached-user-file-overwritten/through-symlinked-directory",
+                              f"{'/'.join(changed[0])} in the directory the workspace's `sub` links to held bytes that are not in the cache; a non-forced checkout ({outcome}) replaced it",
+                              case=case, detail=cfg)
+            if state is not None:
+                state.close()
+            env.reset_staging()
+            ctx.drop(d)
+
         def links(case=case, rng=rng):
             d = ctx.fresh("l")
             root = os.path.join(d, "repo")
@@ -618,6 +665,8 @@ def run_shard(ctx):
             ctx.guard(case, file_where_tree_goes)
         elif case % 24 == 13:
             ctx.guard(case, output_removed)
+        elif case % 24 == 19:
+            ctx.guard(case, symlinked_subdir)
         elif case % 6 == 1:
             ctx.guard(case, co_single)
         else:
